@@ -24,8 +24,9 @@ RULE = (
     'Generated workflow (2-5 tasks, 2-3 cycles, and/or prerequisites, '
     'inter-cycle offsets, custom and optional outputs, optional runahead '
     'limit and queue limits), random job outcomes, and a history over loop / '
-    'return / advance / deliver / fair-round plus hold, release, hold-point, pause, resume '
-    'on pooled or not-yet-spawned instances, containing one or two group '
+    'return / advance / deliver / fair-round plus hold, release, hold-point, '
+    'pause, resume on pooled or not-yet-spawned instances, with one or two '
+    'group '
     'triggers: commands.force_trigger_tasks(schd, [ids...], flow) with 1-4 '
     'model instances grown along graph edges from a random seed instance '
     '(members may be waiting, held, queued, runahead-limited, preparing / '
@@ -33,9 +34,11 @@ RULE = (
     'yet) and flow option default / new / 1 / 2 / none; then a fair drain.  '
     'In-group prerequisites come from the harness AST.  Oracle per trigger '
     'and member, over `launch` trace events (with flows) after the command: '
-    '(A) no more launches that only the triggered flow can account for than '
-    'triggers of the member so far, a group-start member with a live job (preparing / submitted / '
-    'running) gets no later submit number; (B) a group-start member without '
+    '(A) no more launches that only the triggered flow can account for '
+    '(flows all new / all N / none / the single flow of a one-flow case) '
+    'than triggers of the member still owed one; a group-start member with '
+    'a live job (preparing / submitted / running) gets no later submit '
+    'number in its own or the triggered flows; (B) a group-start member without '
     'live job is launched in the triggered flow by the end of the drain '
     'whatever holds and pause say, and is queued by the command only if it '
     'was not queued before and its queue could be full; (C) a member with '
@@ -75,6 +78,17 @@ ASSUMPTIONS = [
     'drain only; iteration cap => inconclusive.  No --wait, no stop '
     'commands, no retries, no future/absolute triggers, no xtriggers in this '
     'profile.',
+    'A jobs-submit of a member that was already preparing when the command '
+    'came (same submit number) is the old job, not a run caused by the '
+    'trigger.  Under --flow=none a waiting no-flow proxy may be merged into '
+    'a flow before it is launched: any launch after the command counts.',
+    'Violations that trace back to one of four recorded root causes carry '
+    'their own signature suffix (live group-start parent: all outputs '
+    'replayed; active member outside the triggered flow, also for members '
+    'downstream of it inside the group; messages of an orphaned job '
+    'completing the re-spawned proxy; custom output already complete on a '
+    'retained group-start proxy); every other violation keeps the plain '
+    'signature.',
 ]
 
 LIVE = ('preparing', 'submitted', 'running')
